@@ -103,7 +103,7 @@ fn apply_map_body<const NT: usize, const ND: usize>() {
 		},
 	}
 	witness!(!err && n == NT + ND, "only additions");
-	witness!(!err && NT >= 1 && n + 1 == NT + ND - 1 + 1 && ND >= 1 && matches!(ds[0].action, Action::Remove(_)) && used[0], "a removal that matches");
+	witness!(!err && ND >= 1 && matches!(ds[0].action, Action::Remove(_)) && used[0], "a removal that matches");
 	witness!(err && ND >= 1 && used[0] && matches!(ds[0].action, Action::Edit(..)), "an edit whose old value mismatches (or whose child fails)");
 	witness!(err && ND >= 1 && !used[0] && !matches!(ds[0].action, Action::Add(_)), "non-addition for an absent key");
 }
@@ -145,3 +145,4 @@ proofs! {
 	#[cfg_attr(kani, kani::unwind(5))]
 	fn c04_apply_map_2_2() { apply_map_body::<2, 2>(); }
 }
+
